@@ -28,8 +28,4 @@ def run(ctx):
 
 
 def search(ctx):
-    if ctx.thorough:
-        return
-    ctx.tier = "thorough"
-    ctx.thorough = True
-    run(ctx)
+    _c06.search_loop(ctx, "C14", "TestVerifC14", ["c14_flush_test.go"])
